@@ -103,6 +103,9 @@ where
     IO::Addr: Clone,
 {
     /// Create a new TLS stream from the given IO, with a domain name and TLS configuration.
+    ///
+    /// # Panics
+    /// If `domain` is neither a valid DNS name nor an IP address (without brackets).
     pub fn new(stream: IO, domain: &str, config: Arc<ClientConfig>) -> Self {
         let domain = rustls::pki_types::ServerName::try_from(domain)
             .expect("should be valid dns name")
